@@ -104,7 +104,7 @@ type CCSpec struct {
 //	Drop{N=from, M=to, I=sequence number}
 //	Ready{N} Persist{N} Apply{N} Advance{N}            (Ready/Advance interface)
 //	AppendStep{N} AppendResp{N} ApplyStep{N} ApplyResp{N}  (storage threads)
-//	Propose{N, Tags=[tag...] (one entry per tag), I=payload size, B=batch as one MsgProp from a client (false: RawNode.Propose)}
+//	Propose{N, Tags=[tag...] (one entry per tag), I=payload size, B=batch as one MsgProp from a client (false: RawNode.Propose), J=1: the client overwrites its payload buffer after the call returned (at a leader)}
 //	ConfChange{N, CC, I=unique context tag; optional CC2, J=its context tag: both changes travel in one MsgProp; or Tags, J=payload size: ordinary proposals following the change in the same MsgProp}
 //	ReadIndex{N, I=context tag}
 //	Transfer{N, M=transferee} Campaign{N} ForgetLeader{N} Unreachable{N, M} SnapReport{N, M=peer, B=ok}
